@@ -68,7 +68,7 @@ def env_kwargs(delims):
 
 
 CHUNKS = ("", "a", " ", "\n", " \n ", "a \n", "\n  ", "  a  ", "\t", "a\n\nb")
-CHUNKS_EXTRA = ("\xa0", "\x0b")  # thorough: whitespace by str.isspace, not "tabs and spaces"
+CHUNKS_EXTRA = ("\xa0", "\x0b", "\n\n")  # thorough: whitespace by str.isspace, not "tabs and spaces"; two line breaks
 CHUNKS_SMALL = ("", "a", " \n ", "\n  ")
 CHUNKS_MID = ("", "a", " \n ", "\n  ", "a \n")
 
